@@ -11,7 +11,7 @@ import (
 func init() {
 	register(&propInfo{
 		id: "C09", fn: checkC09, multiConfig: true,
-		explanation: "Name confinement decided per call site: (r1) checkSafeName returns nil only on paths where the name is known to be non-empty, to contain no '/', and to differ from '.' and '..' (path facts at its nil-returning exits; every other exit returns EINVAL); (r2) every argument in a name position of a backend call (Walk/WalkGetAttr list, Create, Mkdir, Mknod, Symlink new name, Link, RenameAt both names, UnlinkAt) is a request field for which a checkSafeName call on the same expression is known to have returned nil on every path to the call, or a slice of the list that doWalk's leading loop checked element by element, or the result of nameFor (a name that entered the tree through a checked position), or nil; (r3) walkOne refuses more than one name, doWalk passes one-element sub-slices, each step is dominated by the IsDir test of the reference walked from and the next reference's mode comes from the attributes of the file just walked; (r4) tattach reaches the backend only through Attach, GetAttr on the fresh root and doWalk. The quantifier over all strings is absorbed by r1. (r5) an entry cannot be removed (and replaced by a symlink) between the checks of a walk step and its backend call: File calls are made under the path-node locks of their class and UnlinkAt holds the write lock of the node of the removed entry (the rule of C07.r3).",
+		explanation: "Name confinement decided per call site: (r1) checkSafeName returns nil only on paths where the name is known to be non-empty, to contain no '/', and to differ from '.' and '..' (path facts at its nil-returning exits; every other exit returns EINVAL); (r2) every argument in a name position of a backend call (Walk/WalkGetAttr list, Create, Mkdir, Mknod, Symlink new name, Link, RenameAt both names, UnlinkAt) is a request field for which a checkSafeName call on the same expression is known to have returned nil on every path to the call, or a slice of the list that doWalk's leading loop checked element by element, or the result of nameFor (a name that entered the tree through a checked position), or nil; (r3) walkOne refuses more than one name, doWalk passes one-element sub-slices, each step is dominated by the IsDir test of the reference walked from and the next reference's mode comes from the attributes of the file just walked; (r4) tattach reaches the backend only through Attach, GetAttr on the fresh root and doWalk. The quantifier over all strings is absorbed by r1. (r5) an entry cannot be removed (and replaced by a symlink) between the checks of a walk step and its backend call: File calls are made under the path-node locks of their class and UnlinkAt holds the write lock of the node of the removed entry (the rule of C07.r3). (r6) a walk never starts from a directory that was removed and replaced: deletion fences reach every fid of the removed entry because path nodes follow renames (the rules of C08.r3).",
 		assumptions: []string{"strings.Contains / strings.IndexByte etc. behave as documented"},
 	})
 }
@@ -32,6 +32,9 @@ func checkC09(r *Run) {
 	// for read across its deleted-check and its backend call (the rule of C07.r3).
 	if r.borrowed == nil {
 		r.borrow(checkC07, map[string]string{"r3": "r5"})
+		// r6: the cached "is a directory" stays truthful: a removed directory is fenced on every
+		// fid that denotes it because path nodes follow renames (the rules of C08.r3)
+		r.borrow(checkC08, map[string]string{"r3": "r6"})
 	}
 }
 
